@@ -700,3 +700,24 @@ theorem run_ins_created (ℓ : Nat) (c : Cfg) (hℓ : ℓ ∈ recipients .create
       simp
 
 end SqlObjVerif.Events
+
+namespace SqlObjVerif.Events
+/-- in a segment `before ++ write :: rest` whose `before` part holds no callback run, every
+    callback run comes after the write -/
+theorem post_after_write (A B : List Tag) (w : Tag) (hA : ∀ t ∈ A, ∀ p, t ≠ Tag.post p) (hw : ∀ p, w ≠ Tag.post p)
+    (pre suf : List Tag) (p : Nat) (h : A ++ w :: B = pre ++ Tag.post p :: suf) : w ∈ pre := by
+  rcases Chain.split_append h with ⟨s', h1⟩ | ⟨pre', hp, h2⟩
+  · exact absurd rfl (hA (Tag.post p) (by rw [h1]; simp) p)
+  · cases pre' with
+    | nil => simp at h2; exact absurd h2.1 (hw p)
+    | cons x xs =>
+      simp only [List.cons_append, List.cons.injEq] at h2
+      rw [hp, h2.1]; simp
+
+theorem evTags_no_post (c : Cfg) (sig : Sig) : ∀ t ∈ evTags c sig, ∀ p, t ≠ Tag.post p := by
+  intro t ht p
+  simp only [evTags, List.mem_map] at ht
+  obtain ⟨_, _, rfl⟩ := ht
+  simp
+
+end SqlObjVerif.Events
